@@ -12,6 +12,11 @@ use crate::ticket::Ticket;
 
 type FsTuple = (Vec<u8>, u64, bool);
 
+thread_local! { static IN_FLIGHT : std::cell::RefCell<Option<(String, String)>> = std::cell::RefCell::new(None); }
+fn set_in_flight_target(dir : &str, suite : &str) { IN_FLIGHT.with(|c| *c.borrow_mut() = Some((dir.to_string(), suite.to_string()))); }
+fn mark(what : &str, input : &[u8]) { IN_FLIGHT.with(|c| if let Some((d, s)) = &*c.borrow() { crate::suite::in_flight(d, s, what, input); }); }
+fn unmark() { IN_FLIGHT.with(|c| if let Some((d, s)) = &*c.borrow() { crate::suite::clear_in_flight(d, s); }); }
+
 fn catch<R>(f : impl FnOnce() -> R) -> Result<R, String>
 {
     std::panic::catch_unwind(std::panic::AssertUnwindSafe(f)).map_err(|p| crate::verif_sched::panic_message(&p))
@@ -162,7 +167,10 @@ fn impl_read_history(bytes : &[u8]) -> Result<(String, Option<RuleHistory>), Str
     let rule_ticket = to_ticket(&[7u8; 32]);
     sys.user_write(&format!("hist/{}", rule_ticket.human_readable()), bytes);
     let history = History::new(sys.clone(), "hist");
-    match catch(|| history.read_rule_history(&rule_ticket))
+    mark("History::read_rule_history on a history file with these bytes", bytes);
+    let read = catch(|| history.read_rule_history(&rule_ticket));
+    unmark();
+    match read
     {
         Err(m) => Err(m),
         Ok(Err(_)) => Ok(("(err)".to_string(), None)),
@@ -182,7 +190,10 @@ fn impl_read_table(bytes : &[u8]) -> Result<String, String>
 {
     let sys = new_sys();
     sys.user_write("dir/current_file_states", bytes);
-    match catch(|| CurrentFileStates::from_file(sys.clone(), "dir/current_file_states".to_string()))
+    mark("CurrentFileStates::from_file on a current_file_states file with these bytes", bytes);
+    let read = catch(|| CurrentFileStates::from_file(sys.clone(), "dir/current_file_states".to_string()));
+    unmark();
+    match read
     {
         Err(m) => Err(m),
         Ok(Err(_)) => Ok("(err)".to_string()),
@@ -226,6 +237,7 @@ fn gen_path(rng : &mut Rng) -> Vec<u8>
 
 pub fn history(ctx : &Ctx, out : &mut Out)
 {
+    set_in_flight_target(&ctx.out_dir, "c16_history");
     let mut rng = Rng::new(ctx.seed).fork(16);
     let instances = if ctx.thorough { 3000 } else { 250 };
     let mut damaged = 0usize;
@@ -406,6 +418,7 @@ pub fn history(ctx : &Ctx, out : &mut Out)
 
 pub fn table(ctx : &Ctx, out : &mut Out)
 {
+    set_in_flight_target(&ctx.out_dir, "c16_table");
     let mut rng = Rng::new(ctx.seed).fork(1616);
     let instances = if ctx.thorough { 3000 } else { 250 };
     for inst in 0..instances
